@@ -235,9 +235,13 @@ Proof.
     [split; [exact I|apply keeps_refl]|].
   apply guard_round in G; auto. destruct G as (Hh & Hr & Hs). b2p. cbn in Hs.
   unfold do_prevote.
-  destruct (locked s); [apply sign_done; auto using core_eq_refl; cbn; lia|].
-  destruct (pblock s); [|apply sign_done; auto using core_eq_refl; cbn; lia].
-  destruct (negb _); apply sign_done; auto using core_eq_refl; cbn; lia.
+  set (s1 := match locked s with Some _ => if stale_lock s then unlock s else s | None => s end).
+  assert (C1 : core_eq s s1).
+  { subst s1. destruct (locked s); [|apply core_eq_refl]. destruct (stale_lock s); repeat split. }
+  clearbody s1. unfold do_prevote_locked.
+  destruct (locked s1); [apply sign_done; auto; cbn; lia|].
+  destruct (pblock s1); [|apply sign_done; auto; cbn; lia].
+  destruct (negb _); apply sign_done; auto; cbn; lia.
 Qed.
 
 Lemma enter_precommit_inv h r s :
@@ -527,6 +531,7 @@ Proof.
   destruct (hvs_add vals peer v s) as [s1 added]. cbn in C1.
   assert (I1 : Inv1 s1) by (eapply Inv1_core; eauto).
   destruct (negb added); [exact I1|].
+  destruct (step_eqb (rstep s1) SCommit); [exact I1|].
   assert (Hh1 : height s1 = height s) by apply C1.
   destruct (v_type v).
   - (* prevote *)
